@@ -300,6 +300,15 @@ Definition channel_undecodable : decision * list effect := (Closed, []).
 
 (* ------------------------------------------------ correspondence interface *)
 
+(* the harness writes a request block as its lines (shared string constants)
+   joined with CRLF *)
+Fixpoint join_crlf (ls : list str) : str :=
+  match ls with
+  | [] => []
+  | [l] => l
+  | l :: r => l ++ 13 :: 10 :: join_crlf r
+  end.
+
 Definition decision_eqb (a b : decision) : bool :=
   match a, b with
   | Serve x, Serve y => Nat.eqb x y
